@@ -142,7 +142,18 @@ def r3(ctx):
             selected = any(cfg.dominates(a, node) and cfg.find_path(a, node) is not None for a in adds) and any(u(x.func) == "selected_reads.add" and u(x.args[0]) == u(c.args[0]) for x in ctx.prog.calls_in(h.node))
             ok = rejected or selected
             ctx.ob(h.qual, "leaves-undecided:%s@%s" % (u(c), "rejected" if rejected else "selected" if selected else "?"), ok, h.loc(c), "%s under %s" % (u(c), "a rejected coverage test (coverage only grows, so the rejection is permanent)" if rejected else "selection as bridging read (after add_read)") if ok else "%s drops a read that was neither rejected by the coverage test nor selected: the selection is no longer maximal" % u(c))
-    ctx.require(removals == 4, "expected 4 places where reads leave undecided_reads, found %d" % removals)
+    ctx.require(removals >= 3, "expected at least 3 places where reads leave undecided_reads, found %d" % removals)
+    # a read selected in the bridging phase is taken out of `undecided` in the same iteration
+    for c in ctx.prog.calls_in(h.node):
+        if u(c.func) == "selected_reads.add":
+            node = cfg.node_containing(c)
+            lp = c
+            while lp is not None and not isinstance(lp, ast.While):
+                lp = getattr(lp, "parent", None)
+            inner_head = cfg.node_of(lp) if lp is not None else None
+            rem = {cfg.node_containing(x) for x in ctx.prog.calls_in(h.node) if u(x.func) in ("%s.remove" % und, "%s.discard" % und) and u(x.args[0]) == u(c.args[0])}
+            bad = cfg.find_path(node, inner_head, avoid_nodes=rem, start_after=True) if inner_head is not None else [node]
+            ctx.ob(h.qual, "selected-bridging-read-leaves-undecided", bad is None, h.loc(c), "a read selected as bridging read is removed from undecided_reads before the next read is considered" if bad is None else "a selected bridging read stays undecided: it is selected and counted in the coverage monitor again in the next round, so admissible reads are rejected", cfg.describe_path(bad))
     # bridging: skipped single-block reads stay undecided
     conts = [n for n in cfg.g.nodes if cfg.kind(n) == "continue"]
     for cn in conts:
